@@ -22,7 +22,7 @@ Proof.
 Qed.
 
 Lemma Rep2_len p a b : Rep2 p a b -> p_len D2 p = b - a.
-Proof. intros [-> H]. reflexivity. Qed.
+Proof. intros [-> H]. unfold D2, prod2d, it2d_len; cbn [p_len]. lia. Qed.
 
 Lemma Rep2_split p a b k : Rep2 p a b -> 0 <= k <= b - a ->
   exists pl pr, p_split D2 p k = Ok (pl, pr) /\ Rep2 pl a (a + k) /\ Rep2 pr (a + k) b.
@@ -124,7 +124,10 @@ Proof.
 Qed.
 
 Lemma Rep1_len p a b : Rep1 p a b -> p_len D1 p = (b - a)%nat.
-Proof. destruct p as [[s' e'] m]. intros (Hm & _). unfold D1, prod1d; cbn [p_len]. exact Hm. Qed.
+Proof.
+  (* holds for `steps.len()` (length at creation) and for `index_back - index` alike: a fresh iterator has index 0, index_back = steps *)
+  destruct p as [[s' e'] m]. intros (Hm & _). unfold D1, prod1d, it1d_len, it1d_new; cbn [p_len fst snd]. lia.
+Qed.
 
 Lemma Rep1_split p a b k : Rep1 p a b -> (1 <= k <= b - a)%nat ->
   exists pl pr, p_split D1 p k = Ok (pl, pr) /\ Rep1 pl a (a + k) /\ Rep1 pr (a + k) b.
